@@ -37,7 +37,7 @@ def _headers_hash():
     return _hdr_hash
 
 
-def _extract_one(src, flags, extra_tag=""):
+def _extract_one(src, flags, extra_tag="", root=None):
     if not os.path.exists(HWAST):
         raise AnalysisBroken("engines/hwast not built (run setup_cmd: make -C /verif/engines)")
     h = hashlib.sha1()
@@ -51,7 +51,7 @@ def _extract_one(src, flags, extra_tag=""):
     out = os.path.join(outdir, "%s.%s.json" % (os.path.basename(src), key))
     if not os.path.exists(out):
         tmp = out + ".tmp%d" % os.getpid()
-        r = subprocess.run([HWAST, "-o", tmp, "-root", REPO, src, "--"] + compdb.clang_flags(flags),
+        r = subprocess.run([HWAST, "-o", tmp, "-root", root or REPO, src, "--"] + compdb.clang_flags(flags),
                            capture_output=True, text=True)
         if r.returncode != 0 or not os.path.exists(tmp):
             raise AnalysisBroken("hwast failed on %s: rc=%s %s" % (src, r.returncode, r.stderr[-2000:]))
@@ -319,6 +319,43 @@ class Unit(object):
     def relfile(self, idx):
         f = self.files[idx]
         return os.path.relpath(f, REPO) if f.startswith(REPO) else f
+
+
+class ExampleProgram(object):
+    """Tiny positive examples kept under /verif/selftest/examples: a rule whose instance count on the repository may
+    legitimately be zero must still match its example on every run (otherwise it could pass vacuously forever)."""
+
+    def __init__(self, names):
+        d = os.path.join(VERIF, "selftest", "examples")
+        self.units = {}
+        self.db = {}
+        for nm in names:
+            src = os.path.join(d, nm)
+            if not os.path.exists(src):
+                raise AnalysisBroken("example %s missing" % src)
+            jp = _extract_one(src, [], root=d)
+            self.units[nm] = Unit(src, jp)
+            self.db[src] = []
+
+    unit = lambda self, base: self.units[base]
+
+    def func(self, name, unit=None):
+        for u in ([self.units[unit]] if unit else self.units.values()):
+            f = u.func(name)
+            if f is not None:
+                return f
+        return None
+
+    def need_func(self, name, unit=None):
+        f = self.func(name, unit)
+        if f is None:
+            raise AnalysisBroken("example function %s missing" % name)
+        return f
+
+    def all_funcs(self, only_main=True):
+        for u in self.units.values():
+            for f in u.funcs(only_main=only_main):
+                yield f
 
 
 class Program(object):
